@@ -263,6 +263,8 @@ class Sim:
         self.em = em
         self.loop = VLoop()
         asyncio.set_event_loop(self.loop)
+        # fire-and-forget tasks of the library (keep-alive probes) may die with the connection: not an event for stderr
+        self.loop.set_exception_handler(lambda loop, ctx: None)
         self.smsc = Smsc(self.loop)
         self.events = self.smsc.events
         self._saved_open = asyncio.open_connection
